@@ -42,6 +42,9 @@ def run(ctx):
     ctx.guarded("R10.7", "closed", lambda: closed_enqueue(ctx, "R10.7"))
     ctx.guarded("R10.7", "hangup", lambda: hangup(ctx, "R10.7"))
     ctx.guarded("R10.7", "is_done", lambda: is_done(ctx, "R10.7"))
+    ctx.rule("R10.9", "an I/O failure marks the connection Closed (= C09 R09.7), otherwise it is never reaped")
+    from .c09 import failure_closes
+    ctx.guarded("R10.9", "failure-closes", lambda: failure_closes(ctx, "R10.9"))
     ctx.rule("R10.8", "the in-flight counter returns to 0 once every yielded request is answered (C07 R07.6: += exactly what read() returns, -= 1 per response)")
     from .c06 import _Remap
     from .c07 import counter
